@@ -447,13 +447,15 @@ fn eval_cubic_derivative(src: &[Point; 4], t: NormalizedF32) -> Point {
     let p2 = src[2].to_f32x2();
     let p3 = src[3].to_f32x2();
 
-    let coeff = QuadCoeff {
-        a: p3 + f32x2::splat(3.0) * (p1 - p2) - p0,
-        b: times_2(p2 - times_2(p1) + p0),
-        c: p1 - p0,
-    };
-
-    Point::from_f32x2(coeff.eval(f32x2::splat(t.get())))
+    // The Bernstein form has no cancellation between large coefficients:
+    // near a degenerate end (p0 == p1 or p2 == p3) the tangent is tiny,
+    // and its direction must survive.
+    let t = t.get();
+    let s = 1.0 - t;
+    let d = (p1 - p0) * f32x2::splat(s * s)
+        + times_2(p2 - p1) * f32x2::splat(s * t)
+        + (p3 - p2) * f32x2::splat(t * t);
+    Point::from_f32x2(d)
 }
 
 // Cubic'(t) = At^2 + Bt + C, where
